@@ -360,6 +360,13 @@ def run(ck, prog, ctx):
                 ok_decl = any(b.edge_dominates(ed, pos[0]) for ed in edges.get("offset==declared", []))
                 ck.ob("DOM", "%s/success/%d/offset==declared" % (name, i), ok_decl, "%s: success %s" % (name, "also requires the consumed offset to equal the declared record length" if ok_decl else "does not compare the consumed offset with the declared record length"), where=b.where(line))
     ck.floor("DOM", "decoders", n_dec, 3)
+    # ---- the size tests in front of the indexing fail for input that is too SHORT
+    from props.layout import check_length_validation_direction as _clvd
+    n_len = 0
+    for rx_, par_ in ((r"<annotations::gene::Gene as std::convert::TryFrom<&\[u8\]>>::try_from$", 1), (r"^annotations::disease::Disease::from_bytes$", 1), (r"^parser::binary::term::from_bytes_v1$", 1), (r"^parser::binary::term::from_bytes_v2$", 1)):
+        for db_ in prog.find(rx_):
+            n_len += _clvd(ck, "DOM", prog, db_, db_.short, par_)
+    ck.floor("DOM", "length tests of the record decoders", n_len, 2, soft=True)
 
     # ------------------------------------------------------------------ DOM: from_binary hands the WHOLE file to from_bytes
     fbin = prog.body(codec.ONT + "from_binary")
